@@ -1,7 +1,7 @@
 (* CLane_main.v — every reachable state of the concurrent-lane model satisfies the invariant; consequences:
    width accounting, barrier exclusion. *)
 From Coq Require Import ZArith Bool List Lia.
-From Verif Require Import Word Bits Fields DqFields Conc Gen_consts Gen_dqstate Lane_fields CLane_fields CLane CLaneJudge CLane_inv
+From Verif Require Import Word Bits Fields DqFields Conc Gen_consts Gen_dqstate Gen_lanesites Lane_fields CLane_fields CLane CLaneJudge CLane_inv
   CLane_proofs CLane_steps1 CLane_steps2 CLane_steps3 CLane_steps4.
 Import ListNotations.
 Local Open Scope Z_scope.
@@ -212,3 +212,24 @@ Proof.
   pose proof (g_ib _ _ _ G) as Hib. rewrite Bm in Hib. pose proof (g_owner _ _ _ G) as Ho. rewrite Lt in Ho.
   rewrite Hib, Ho, !Z.eqb_refl. reflexivity.
 Qed.
+
+(* ---- site tie: the dq_state accesses of the modelled functions are the ones the translator reads from the source ---- *)
+Lemma model_sites_match :
+  model_sites_try_reserve_sync_width = f_dispatch_queue_try_reserve_sync_width_sites /\
+  model_sites_try_acquire_async = f_dispatch_queue_try_acquire_async_sites /\
+  model_sites_reserve_sync_width = Gen_lanesites.f_dispatch_queue_reserve_sync_width_sites /\
+  model_sites_try_upgrade_full_width = f_dispatch_queue_try_upgrade_full_width_sites /\
+  model_sites_non_barrier_complete = non_barrier_complete_loop_sites /\
+  model_sites_non_barrier_complete = firstn 2 (dq_sites Gen_lanesites.f_dispatch_lane_non_barrier_complete_sites) /\
+  model_sites_class_barrier_complete = class_barrier_complete_loop_sites /\
+  model_sites_class_barrier_complete = dq_sites Gen_lanesites.f_dispatch_lane_class_barrier_complete_sites /\
+  model_sites_drain_barrier_waiter = firstn 3 (dq_sites Gen_lanesites.f_dispatch_lane_drain_barrier_waiter_sites) /\
+  model_sites_drain_non_barriers = firstn 11 (dq_sites Gen_lanesites.f_dispatch_lane_drain_non_barriers_sites) /\
+  model_sites_concurrent_drain = dq_sites Gen_lanesites.f_dispatch_lane_concurrent_drain_sites /\
+  model_sites_concurrent_push_head = firstn 2 (dq_sites Gen_lanesites.f_dispatch_lane_concurrent_push_sites) /\
+  model_sites_push_waiter_head = firstn 3 (dq_sites Gen_lanesites.f_dispatch_lane_push_waiter_sites).
+Proof. vm_compute. repeat split; reflexivity. Qed.
+
+Theorem trace_judges_sound W s : 2 <= W <= 4094 -> reach W s ->
+  word_ok W (st s) = true /\ (forall t, lockh s = Some t -> bmode s = true -> owner_ok (st s) t = true).
+Proof. intros HW R. split; [exact (word_ok_sound W s HW R) | intros t; exact (owner_ok_sound W s t HW R)]. Qed.
